@@ -1,10 +1,10 @@
 package main
 
 import (
-	"os"
-	"go/token"
 	"fmt"
+	"go/token"
 	"go/types"
+	"os"
 
 	"golang.org/x/tools/go/ssa"
 )
@@ -481,7 +481,9 @@ func guardSummary(g *ssa.Function) []guardFact {
 		cands = append(cands, cand{ti, func(cfi *funcInfo, call ssa.CallInstruction) (Lin, bool) { return arg(i)(cfi, call), true }})
 		for _, k := range compareConsts(g, 6) {
 			k := k
-			cands = append(cands, cand{konst(k).sub(ti), func(cfi *funcInfo, call ssa.CallInstruction) (Lin, bool) { return konst(k).sub(arg(i)(cfi, call)), true }})
+			cands = append(cands, cand{konst(k).sub(ti), func(cfi *funcInfo, call ssa.CallInstruction) (Lin, bool) {
+				return konst(k).sub(arg(i)(cfi, call)), true
+			}})
 		}
 		for _, j := range ints {
 			if j == i {
